@@ -106,19 +106,39 @@ hash_has_aad(int h)
         return h == IMB_AUTH_AES_GMAC || h == IMB_AUTH_AES_CCM || h == IMB_AUTH_CHACHA20_POLY1305 ||
                h == IMB_AUTH_SNOW_V_AEAD || h == IMB_AUTH_SM4_GCM;
 }
+// smallest cipher length above the documented limit that still satisfies the mode's alignment rule (so that only the limit
+// check can reject it); for bit-length modes the value is in bits
 bool
-over_limit_cipher(int c, uint64_t &v)
+over_limit_cipher(const JobSpec &s, uint64_t &v)
 {
-        switch (c) {
+        switch (s.cipher) {
+        case IMB_CIPHER_CBC:
+                if (s.dir != IMB_DIR_ENCRYPT)
+                        return false; // documented for encryption only
+                v = 65536;
+                return true;
         case IMB_CIPHER_ECB:
         case IMB_CIPHER_DES:
         case IMB_CIPHER_DES3:
+        case IMB_CIPHER_SM4_CBC: v = 65535 + 1; return true; // > MB_MAX_LEN16, keeps block alignment
         case IMB_CIPHER_DOCSIS_DES:
         case IMB_CIPHER_DOCSIS_SEC_BPI:
-        case IMB_CIPHER_CCM:
-        case IMB_CIPHER_SM4_CBC: v = 65535 + 1; return true; // > MB_MAX_LEN16, keeps block alignment
+        case IMB_CIPHER_CCM: v = 65535; return true;
+        case IMB_CIPHER_CBCS_1_9: v = 1ULL << 60; return true;
+        case IMB_CIPHER_GCM:
+        case IMB_CIPHER_GCM_SGL:
+        case IMB_CIPHER_SM4_GCM: v = IMB_GCM_MAX_LEN + 1; return true;
+        case IMB_CIPHER_CHACHA20:
+        case IMB_CIPHER_CHACHA20_POLY1305:
+        case IMB_CIPHER_CHACHA20_POLY1305_SGL: v = IMB_CHACHA20_POLY1305_MAX_LEN + 1; return true;
+        case IMB_CIPHER_SNOW3G_UEA2_BITLEN: v = 1ULL << 32; return true;
         case IMB_CIPHER_ZUC_EEA3: v = 8189; return true;
         case IMB_CIPHER_KASUMI_UEA1_BITLEN: v = 20001; return true;
+        case IMB_CIPHER_PON_AES_CNTR:
+                if (!s.c_len)
+                        return false;
+                v = (1u << 14) + 4; // > 2^14 + 8 - 8, multiple of 4
+                return true;
         }
         return false;
 }
@@ -153,6 +173,7 @@ viol_applies(int v, const JobSpec &s)
                 case V_AEAD_CIPHER_WITH_OTHER_HASH:
                 case V_AEAD_HASH_WITH_OTHER_CIPHER:
                 case V_NULL_SGL_CTX:
+                case V_OVER_CIPH_LEN:
                 case V_SGL_STATE: return true;
                 case V_NULL_TAG:
                 case V_TAG_LEN: return !gcm || st == IMB_SGL_COMPLETE || st == IMB_SGL_ALL;
@@ -191,7 +212,7 @@ viol_applies(int v, const JobSpec &s)
                 return true;
         case V_ZERO_CIPH_LEN: return cipher_zero_len_invalid(c);
         case V_MISALIGNED_CIPH_LEN: return cipher_block_mode(c) || (c == IMB_CIPHER_PON_AES_CNTR && s.c_len != 0);
-        case V_OVER_CIPH_LEN: return over_limit_cipher(c, tmp) && !(c == IMB_CIPHER_CCM);
+        case V_OVER_CIPH_LEN: return over_limit_cipher(s, tmp);
         case V_IV_LEN:
                 if (c == IMB_CIPHER_PON_AES_CNTR)
                         return s.c_len != 0;
@@ -201,13 +222,18 @@ viol_applies(int v, const JobSpec &s)
         case V_DIRECTION: return c != IMB_CIPHER_NULL;
         case V_NULL_TAG: return h != IMB_AUTH_NULL;
         case V_TAG_LEN: return h != IMB_AUTH_NULL;
-        case V_ZERO_AUTH_LEN: return hash_is_hmac(h) || h == IMB_AUTH_ZUC_EIA3_BITLEN || h == IMB_AUTH_SNOW3G_UIA2_BITLEN;
+        case V_ZERO_AUTH_LEN:
+                return hash_is_hmac(h) || h == IMB_AUTH_ZUC_EIA3_BITLEN || h == IMB_AUTH_ZUC256_EIA3_BITLEN ||
+                       h == IMB_AUTH_SNOW3G_UIA2_BITLEN || h == IMB_AUTH_KASUMI_UIA1;
         case V_OVER_AUTH_LEN:
                 return hash_is_hmac(h) && h != IMB_AUTH_HMAC_SM3 ? true
                                                                   : (h == IMB_AUTH_AES_XCBC || hash_is_cmac(h) ||
-                                                                     h == IMB_AUTH_SHA_1 || h == IMB_AUTH_SHA_256 ||
+                                                                     h == IMB_AUTH_SHA_1 || h == IMB_AUTH_SHA_224 ||
+                                                                     h == IMB_AUTH_SHA_256 || h == IMB_AUTH_SHA_384 ||
                                                                      h == IMB_AUTH_SHA_512 || h == IMB_AUTH_ZUC_EIA3_BITLEN ||
-                                                                     h == IMB_AUTH_KASUMI_UIA1);
+                                                                     h == IMB_AUTH_ZUC256_EIA3_BITLEN ||
+                                                                     h == IMB_AUTH_SNOW3G_UIA2_BITLEN ||
+                                                                     h == IMB_AUTH_DOCSIS_CRC32 || h == IMB_AUTH_KASUMI_UIA1);
         case V_NULL_AUTH_KEY1:
                 return hash_is_hmac(h) || h == IMB_AUTH_AES_XCBC || hash_is_cmac(h) || hash_is_gmac(h) ||
                        h == IMB_AUTH_GHASH || h == IMB_AUTH_POLY1305 || h == IMB_AUTH_ZUC_EIA3_BITLEN ||
@@ -319,9 +345,26 @@ viol_apply(int v, const JobSpec &s, IMB_JOB *j, std::vector<int> &e)
                         e.push_back(IMB_ERR_JOB_PON_PLI);
                 break;
         case V_OVER_CIPH_LEN:
-                over_limit_cipher(c, big);
-                j->msg_len_to_cipher_in_bytes = big;
+                over_limit_cipher(s, big);
                 e = { IMB_ERR_JOB_CIPH_LEN };
+                if ((c == IMB_CIPHER_GCM_SGL || c == IMB_CIPHER_CHACHA20_POLY1305_SGL) && s.sgl_state == IMB_SGL_ALL) {
+                        // the limit applies to the sum over the segment list
+                        struct IMB_SGL_IOV *iov = (struct IMB_SGL_IOV *) (uintptr_t) j->sgl_io_segs;
+                        if (j->num_sgl_io_segs >= 2 && (s.seed & 1)) {
+                                iov[0].len = big - 1;
+                                iov[1].len = 1;
+                                for (uint64_t i = 2; i < j->num_sgl_io_segs; i++)
+                                        iov[i].len = 0;
+                        } else {
+                                iov[0].len = big;
+                                for (uint64_t i = 1; i < j->num_sgl_io_segs; i++)
+                                        iov[i].len = 0;
+                        }
+                        break;
+                }
+                j->msg_len_to_cipher_in_bytes = big;
+                if (c == IMB_CIPHER_CCM)
+                        j->msg_len_to_hash_in_bytes = big; // keep the two lengths equal: only the limit is violated
                 break;
         case V_IV_LEN: {
                 uint64_t l = j->iv_len_in_bytes;
@@ -372,12 +415,18 @@ viol_apply(int v, const JobSpec &s, IMB_JOB *j, std::vector<int> &e)
                 e = { IMB_ERR_JOB_AUTH_TAG_LEN };
                 break;
         }
-        case V_ZERO_AUTH_LEN: j->msg_len_to_hash_in_bytes = 0; e = { IMB_ERR_JOB_AUTH_LEN }; break;
+        case V_ZERO_AUTH_LEN:
+                // below the documented minimum: zero, or for KASUMI-UIA1 one block or less
+                j->msg_len_to_hash_in_bytes = (h == IMB_AUTH_KASUMI_UIA1 && (s.seed & 1)) ? 8 : 0;
+                e = { IMB_ERR_JOB_AUTH_LEN };
+                break;
         case V_OVER_AUTH_LEN:
                 if (h == IMB_AUTH_AES_CMAC_BITLEN)
                         j->msg_len_to_hash_in_bits = 65534 * 8 + 1;
-                else if (h == IMB_AUTH_ZUC_EIA3_BITLEN)
+                else if (h == IMB_AUTH_ZUC_EIA3_BITLEN || h == IMB_AUTH_ZUC256_EIA3_BITLEN)
                         j->msg_len_to_hash_in_bits = 65504 + 1;
+                else if (h == IMB_AUTH_SNOW3G_UIA2_BITLEN)
+                        j->msg_len_to_hash_in_bits = 1ULL << 32;
                 else if (h == IMB_AUTH_KASUMI_UIA1)
                         j->msg_len_to_hash_in_bytes = 2501;
                 else
